@@ -51,7 +51,7 @@ def _scope(url):
     if not host:
         return None
     h = host[:-1] if host.endswith(".") else host
-    if h == "" or h.startswith(".") or ".." in h or "@" in parsed.netloc.rpartition("@")[0]:
+    if h == "" or h.startswith(".") or ".." in h:
         return None
     return parsed, host
 
